@@ -690,6 +690,46 @@ def exec_violation(ck, xr, c, k, r, shrink=True):
                   "replay": "bin/check C08 --replay <this file>: the query goes through the real parser and planners again, the statement they print is parsed back and executed over the recorded database (model/SqlEvalAgg.v) and compared with metric_ref_db; or send the query to a reader over a ClickHouse holding these rows"})
 
 
+def with_members(sql):
+    """(alias, body) of the members of the WITH list a statement starts with (text level: balanced parentheses outside quotes)"""
+    out = []
+    if not sql.startswith("WITH "):
+        return out
+    i = 5
+    while True:
+        m = re.compile(r"([A-Za-z_][A-Za-z_0-9]*) as \(").match(sql, i)
+        if not m:
+            return out
+        j, depth, q = m.end(), 1, None
+        while j < len(sql) and depth:
+            ch = sql[j]
+            if q:
+                if ch == "\\":
+                    j += 1
+                elif ch == q:
+                    q = None
+            elif ch in "'`\"":
+                q = ch
+            elif ch == "(":
+                depth += 1
+            elif ch == ")":
+                depth -= 1
+            j += 1
+        out.append((m.group(1), sql[m.end():j - 1]))
+        if sql[j:j + 1] != ",":
+            return out
+        i = j + 1
+
+
+def self_reading_with(sql):
+    """the alias of a WITH member whose own select reads FROM / JOINs that alias (ClickHouse resolves the name to the member itself:
+    the statement is rejected), or None"""
+    for name, body in with_members(sql):
+        if re.search(r"(?:FROM|JOIN) %s(?: |$)" % re.escape(name), body):
+            return name
+    return None
+
+
 def run_exec(ck, replay=None):
     """the IMPLEMENTATION's statement - the text the real planners print, parsed back into the tree of model/Sql.v, every WITH
     reference bound by alias to the member of the statement's own WITH list - is executed over small databases by
@@ -720,6 +760,20 @@ def run_exec(ck, replay=None):
                     c["id"] = 3000000 + c["id"]
                     c["class"] = (c.get("class") or []) + ["corpus"]
                 cases = wit + cases
+    # ---- spec oracle: no WITH member reads from its own alias (two WITH objects under one alias in one statement: the printer keeps one,
+    # every reference - its own included - resolves to it; seen when overlapping requests share planner state)
+    selfw = [(c, self_reading_with(c["sql"][0])) for c in cases if c.get("sql")]
+    selfw = [(c, a) for c, a in selfw if a]
+    ck.obligation("spec oracle: no member of a statement's WITH list selects from its own alias (%d statements)" % sum(1 for c in cases if c.get("sql")),
+                  not selfw, "; ".join("%s => %s" % (c["query"], a) for c, a in selfw[:3]))
+    if selfw:
+        c, a = min(selfw, key=lambda x: (len(x[0]["query"]), len(x[0]["sql"][0])))
+        ov = c["ctx"].get("overlap")
+        ck.violation({"property": "C08", "part": "logql_metric_correct", "kind": "the WITH member %s of the statement selects FROM %s, i.e. from itself: ClickHouse rejects the statement, the query has no result" % (a, a) + (
+                          " - the statement of a request during whose Process call a second request with the byte-identical query text and the window ctx.overlap = %s was transpiled and processed completely (harness/cmd/logqlsql/overlap.go): two WITH objects carry one alias" % ov if ov else ""),
+                      "case": {"query": c["query"], "ctx": c["ctx"], "db": (c.get("dbs") or [{"series": [], "samples": []}])[0]}, "sql": c["sql"][0][:6000],
+                      "failing_input": "any database (the one of this case included): the statement is not valid ClickHouse SQL, the definition answers the series of the matching entries",
+                      "replay": "bin/check C08 --replay <this file>"})
     # tie of the planner MODEL (the theorems speak about its statement): byte for byte on every executed case
     usable, mism, _ = sqltext.compare_metric(ck, cases, name="logqlm_exec")
     ck.obligation("correspondence on the %d executed cases: the model's statement is the implementation's statement, byte for byte" % len(usable),
